@@ -1,10 +1,8 @@
 (* Extract_coarsen.v -- extraction of the coarsening models (C04) to OCaml.
-   Same directives as Extract_kernels.v (trusted base, DESIGN.md section 6). *)
-From Coq Require Import Extraction ExtrOcamlBasic ExtrOcamlNatInt ExtrOcamlZBigInt.
+   Directives: ExtractCommon.v (trusted base, DESIGN.md section 6). *)
+From Amgcl Require Import ExtractCommon.
 From Coq Require Import QArith Qcanon.
 From Amgcl Require Import Scalar QcInst Vec Crs Kernels MatOps MatOps2 Aggregates Tentative Coarsen.
-Extraction Blacklist List String Int Nat.
-Set Extraction Optimize.
 Separate Extraction
   QcInst.QcS Scalar.is_zero Scalar.smax Scalar.smin
   Vec Crs Kernels MatOps MatOps2 Aggregates Tentative Coarsen.
